@@ -38,7 +38,7 @@ def _shared():
     from obligations import C02 as _c02
     _r = [o for o in _c02.OBLIGATIONS if o.name in ('C02.O3.call_rcu_wait',)]
     from obligations import C10 as _c10
-    _r += [o for o in _c10.OBLIGATIONS if o.name in ('C10.O1.enqueue', 'C10.O1.splice', 'C10.O1.iter')]
+    _r += [o for o in _c10.OBLIGATIONS if o.name in ('C10.O1.enqueue', 'C10.O1.splice', 'C10.O1.iter', 'C10.O1.busy_wait', 'C10.O4.iter_env')]
     return _r
 META = {
     'level': 'other',
